@@ -1907,7 +1907,12 @@ def comprehension(eng, node, env, kind):
         res = filtered_iter(eng, it, g, env, elem)
         if kind == 'set':
             return b_set(eng, res)           # {e(x) for x in S if p(x)}: exactly the selected elements' images
-        return iter_to_list(eng, res) if kind == 'list' else res
+        if kind == 'list':
+            try:
+                return iter_to_list(eng, res)
+            except EngineError:
+                return res                   # elements are abstract objects: an immutable view (len / iteration / indexing)
+        return res
     if kind == 'dict':
         return dict_from_pairs(eng, it, g, env, elem)
     if kind not in ('gen', 'list'):
